@@ -17,7 +17,7 @@ import (
 func checkLocalGuardedMaps(c *engine.Ctx, rule string) {
 	c.Rule(rule, "a function-local map captured by closures, in a function that also declares a local sync.Mutex/RWMutex captured by the same closures, is read only with that mutex held and written (insert, delete) only with it held in write mode")
 	p := c.P
-	n := 0
+	n, hosts := 0, 0
 	for _, f := range p.RepoFuncs() {
 		if f.Parent() != nil {
 			continue
@@ -40,6 +40,7 @@ func checkLocalGuardedMaps(c *engine.Ctx, rule string) {
 			continue
 		}
 		mu := mus[0]
+		hosts++
 		// resolve a value to the local cell it denotes (through closure captures)
 		cellOf := func(v ssa.Value) *ssa.Alloc {
 			for i := 0; i < 8; i++ {
@@ -172,5 +173,5 @@ func checkLocalGuardedMaps(c *engine.Ctx, rule string) {
 			}
 		}
 	}
-	c.Floor(n, 2)
+	c.Check(hosts >= 1, "local-maps:seen", token.NoPos, hosts, nil, "positive control: %d function(s) keep a map and a mutex in local variables shared with their goroutines, %d accesses examined", hosts, n)
 }
